@@ -2,7 +2,6 @@ package sim
 
 import (
 	"fmt"
-	"runtime"
 	"sort"
 	"strings"
 	"sync"
@@ -194,20 +193,7 @@ func New(sched *Stream, strat Strategy, maxSteps int) *Sim {
 // Detach stops this simulator from receiving hook calls.
 func (s *Sim) Detach() { current.CompareAndSwap(s, nil) }
 
-func curGID() int64 {
-	var buf [64]byte
-	n := runtime.Stack(buf[:], false)
-	// "goroutine 123 [running]:"
-	var id int64
-	for i := len("goroutine "); i < n; i++ {
-		c := buf[i]
-		if c < '0' || c > '9' {
-			break
-		}
-		id = id*10 + int64(c-'0')
-	}
-	return id
-}
+func curGID() int64 { return int64(getg()) }
 
 func (s *Sim) lookupLocked() *Task { return s.byGID[curGID()] }
 
@@ -358,10 +344,20 @@ func (s *Sim) Go(kind, name string, fn func()) *Task {
 // AtStep schedules fn to run in the scheduler goroutine, at a quiescent point,
 // just before scheduler step k.
 func (s *Sim) AtStep(k int, name string, fn func()) {
+	s.mu.Lock()
+	defer s.mu.Unlock()
 	if k < s.Step {
 		k = s.Step
 	}
 	s.events[k] = append(s.events[k], event{name, fn})
+}
+
+func (s *Sim) takeEvents(k int) []event {
+	s.mu.Lock()
+	defer s.mu.Unlock()
+	evs := s.events[k]
+	delete(s.events, k)
+	return evs
 }
 
 // Advance lets d of simulated time pass while every task stays where it is
@@ -449,8 +445,7 @@ func (s *Sim) Run() Verdict {
 	for {
 		synctest.Wait()
 		s.drainWake()
-		if evs, ok := s.events[s.Step]; ok {
-			delete(s.events, s.Step)
+		if evs := s.takeEvents(s.Step); len(evs) > 0 {
 			for _, ev := range evs {
 				s.Mark("event:" + ev.name)
 				ev.fn()
@@ -475,9 +470,7 @@ func (s *Sim) Run() Verdict {
 			// Pending events at later steps can still change things: fire the
 			// next one now rather than declaring a deadlock.
 			if next, ok := s.nextEventStep(); ok {
-				evs := s.events[next]
-				delete(s.events, next)
-				for _, ev := range evs {
+				for _, ev := range s.takeEvents(next) {
 					s.Mark("event:" + ev.name)
 					ev.fn()
 					synctest.Wait()
@@ -519,6 +512,8 @@ func (s *Sim) Run() Verdict {
 }
 
 func (s *Sim) nextEventStep() (int, bool) {
+	s.mu.Lock()
+	defer s.mu.Unlock()
 	best, ok := 0, false
 	for k := range s.events {
 		if !ok || k < best {
